@@ -32,6 +32,11 @@ E("not-by-map-collect", "src/compile.rs",
                 flipped""",
   """                let x = x.compile(prg, env, circuit);
                 x.iter().map(|x| circuit.push_not(*x)).collect()""", "loop written with an iterator adaptor")
+E("exporter-counter-advanced-before-store", "src/convert.rs",
+  """                *out = wire_max + 1;
+                wire_max += 2;""",
+  """                wire_max += 2;
+                *out = wire_max - 1;""", "de-alias counter advanced first, same wire numbers")
 E("array-literal-by-flat-map", "src/compile.rs",
   """                for elem in elems {
                     wires.extend(elem.compile(prg, env, circuit));
